@@ -40,12 +40,51 @@ var edgeCounters = map[string][]int{
 	"ML-DSA-87":  {131, 264, 132, 730},
 }
 
+// craftCt0 lists crafted-key counter messages "verif-craft-<i>" on which the reference's loop
+// refuses an attempt because ||c t0|| >= gamma2 (only possible for gamma2 = (q-1)/88). Hints for
+// the enumeration like edgeCounters; the counter crafted_rej_ct0 is measured from the trace.
+var craftCt0 = map[string][]int{
+	"Dilithium2": {879, 1331, 1905, 2062, 2509, 2563},
+	"ML-DSA-44":  {116, 152, 157, 175, 221, 711},
+}
+
 type signCase struct {
-	id   string
-	key  int // index into keys
-	mp   []byte
-	rnd  [32]byte
-	unpk bool // sign with the key re-read from its packed form
+	id    string
+	key   int // index into keys
+	mp    []byte
+	rnd   [32]byte
+	unpk  bool // sign with the key re-read from its packed form
+	craft bool // sign with the crafted private key (t0 replaced), see craftSK
+}
+
+// craftSK returns key #3's private key with its t0 section replaced: the first e polynomials
+// have every coefficient 2^12 (the largest encodable value; odd rows alternate 2^12, -(2^12-1)), the others are zero. Sign_internal
+// is defined for any private-key byte string; with this t0 the products c*t0 are large, so the
+// two late rejection conditions, ||c t0|| >= gamma2 (reachable only for gamma2 = (q-1)/88, where
+// tau*2^12 > gamma2) and hint weight > omega, fire often instead of (almost) never.
+func craftSK(p *ref.Params, sk []byte) []byte {
+	e := map[string]int{"Dilithium2": 2, "ML-DSA-44": 2, "Dilithium3": 4, "ML-DSA-65": 4, "Dilithium5": 5, "ML-DSA-87": 5}[p.Name]
+	out := append([]byte{}, sk...)
+	off := len(sk) - p.K*32*ref.D
+	var big, alt, zero ref.Poly
+	for i := range big {
+		big[i] = 1 << (ref.D - 1)
+		alt[i] = 1 << (ref.D - 1)
+		if i%2 == 1 {
+			alt[i] = ref.Q - (1<<(ref.D-1) - 1)
+		}
+	}
+	for i := 0; i < p.K; i++ {
+		w := &zero
+		if i < e {
+			w = &big
+			if i%2 == 1 {
+				w = &alt
+			}
+		}
+		copy(out[off+i*32*ref.D:], ref.BitPack(w, 1<<(ref.D-1)-1, 1<<(ref.D-1)))
+	}
+	return out
 }
 
 // Sign compares key generation and Sign_internal (deterministic and hedged) with the reference,
@@ -56,7 +95,7 @@ func Sign(t *testing.T, im *Impl) {
 	p := im.start(r)
 	nCounter := r.Pick(300, 3000)
 	r.Rule(fmt.Sprintf("keys: xi in SEEDS(32); pk, sk bytes = KeyGen_internal; sk.Public(), Unpack/Pack round trip; signatures: every key x message lengths {0,1,63,64,65,200} x ctx {\"\",\"a\",255 bytes} (M' framing, ML-DSA) "+
-		"x rnd {0^32, FF^32, 00..1f} (hedged path; ignored by Dilithium), signed with the generated and with the unpacked key, plus %d counter messages \"verif-i\" under one key; "+
+		"x rnd {0^32, FF^32, 00..1f} (hedged path; ignored by Dilithium), signed with the generated and with the unpacked key, plus %d counter messages \"verif-i\" under one key, plus counter messages under a crafted private key (t0 := 2^12 in some rows, 0 elsewhere) that drives the c*t0 and hint-weight rejections; "+
 		"sig bytes = Sign_internal of the reference; every signature is then verified by the implementation; distinct = (key, M', rnd); rejection-branch counters come from the reference's trace", nCounter))
 	key := func(fn, class string) string { return "C04|" + im.Name + "|" + fn + "|" + class }
 
@@ -121,7 +160,7 @@ func Sign(t *testing.T, im *Impl) {
 						if unpk && (ri != 0 || ci != 0) {
 							continue
 						}
-						cases = append(cases, signCase{fmt.Sprintf("sign/k%d/m%d/c%d/r%d/u%v", ki, ml, ci, ri, unpk), ki, mp, rnds[ri], unpk})
+						cases = append(cases, signCase{fmt.Sprintf("sign/k%d/m%d/c%d/r%d/u%v", ki, ml, ci, ri, unpk), ki, mp, rnds[ri], unpk, false})
 					}
 				}
 			}
@@ -129,16 +168,25 @@ func Sign(t *testing.T, im *Impl) {
 	}
 	for i := 0; i < nCounter; i++ {
 		mp := []byte(fmt.Sprintf("verif-%d", i))
-		cases = append(cases, signCase{fmt.Sprintf("sign/counter/%d", i), 3, mp, rnds[0], false})
+		cases = append(cases, signCase{fmt.Sprintf("sign/counter/%d", i), 3, mp, rnds[0], false, false})
+	}
+	nCraft := r.Pick(150, 1000)
+	for i := 0; i < nCraft; i++ {
+		cases = append(cases, signCase{id: fmt.Sprintf("sign/craft/%d", i), key: 3, mp: []byte(fmt.Sprintf("verif-craft-%d", i)), craft: true})
+	}
+	for _, i := range craftCt0[p.Name] {
+		if i >= nCraft {
+			cases = append(cases, signCase{id: fmt.Sprintf("sign/craft/%d", i), key: 3, mp: []byte(fmt.Sprintf("verif-craft-%d", i)), craft: true})
+		}
 	}
 	for _, i := range edgeCounters[p.Name] {
 		if i >= nCounter {
-			cases = append(cases, signCase{fmt.Sprintf("sign/counter/%d", i), 3, []byte(fmt.Sprintf("verif-%d", i)), rnds[0], false})
+			cases = append(cases, signCase{fmt.Sprintf("sign/counter/%d", i), 3, []byte(fmt.Sprintf("verif-%d", i)), rnds[0], false, false})
 		}
 	}
 	r.Set("sign_cases", len(cases))
 	if os.Getenv("VERIF_C04_SEARCH") != "" {
-		const span = 4000
+		const span = 40
 		zs, rs := make([]bool, span), make([]bool, span)
 		verifmc.ParallelFor(span, func(i int) {
 			_, tr := ref.SignInternal(p, keys[3].rsk, []byte(fmt.Sprintf("verif-%d", i)), rnds[0][:])
@@ -154,6 +202,21 @@ func Sign(t *testing.T, im *Impl) {
 			}
 		}
 		fmt.Printf("EDGE %q: %v,\n", p.Name, append(zi, ri...))
+		if p.Tau<<(ref.D-1) > p.Gamma2 {
+			csk := craftSK(p, keys[3].rsk)
+			hit := make([]bool, 30000)
+			verifmc.ParallelFor(len(hit), func(i int) {
+				_, tr := ref.SignInternalMode(p, csk, []byte(fmt.Sprintf("verif-craft-%d", i)), rnds[0][:], ref.SignMode{MaxAttempts: 400})
+				hit[i] = tr.RejCt0 > 0 && tr.Attempts < 400
+			})
+			var ci []int
+			for i := range hit {
+				if hit[i] && len(ci) < 6 {
+					ci = append(ci, i)
+				}
+			}
+			fmt.Printf("CRAFTCT0 %q: %v,\n", p.Name, ci)
+		}
 	}
 	unpacked := make([]Key, len(keys))
 	verifiers := make([]*ref.Verifier, len(keys))
@@ -161,15 +224,38 @@ func Sign(t *testing.T, im *Impl) {
 		unpacked[i] = im.KeyFromBytes(keys[i].rpk, keys[i].rsk)
 		verifiers[i] = ref.NewVerifier(p, keys[i].rpk)
 	}
+	craftedSK := craftSK(p, keys[3].rsk)
+	craftedKey := im.KeyFromBytes(keys[3].rpk, craftedSK)
+	if !bytes.Equal(craftedKey.SK(), craftedSK) {
+		r.Violation(key("Unpack-Pack", "not-identity|crafted-t0"), "craft/key", im.Name+" Pack(Unpack(sk)) differs for a private key whose t0 is all 2^12 / 0", nil)
+	}
 	verifmc.ParallelFor(len(cases), func(ci int) {
 		c := cases[ci]
 		if !r.Want(c.id) {
 			return
 		}
-		want, tr := ref.SignInternal(p, keys[c.key].rsk, c.mp, c.rnd[:])
+		rsk := keys[c.key].rsk
+		if c.craft {
+			rsk = craftedSK
+		}
+		want, tr := ref.SignInternalMode(p, rsk, c.mp, c.rnd[:], ref.SignMode{MaxAttempts: 400})
 		k := keys[c.key].k
 		if c.unpk {
 			k = unpacked[c.key]
+		}
+		if c.craft {
+			k = craftedKey
+			if want == nil {
+				// the implementation gives up (panics) after 575 attempts by design; not compared
+				r.Count("crafted_cases_skipped_over_400_attempts", 1)
+				return
+			}
+			r.Count("crafted_cases", 1)
+			r.Count("crafted_rej_ct0", tr.RejCt0)
+			r.Count("crafted_rej_hint_weight", tr.RejHint)
+			if tr.HintWeight == p.Omega {
+				r.Count("crafted_accepted_hint_weight_exactly_omega", 1)
+			}
 		}
 		var got []byte
 		if pn, what := verifmc.Try(func() { got = k.Sign(c.mp, c.rnd) }); pn {
@@ -210,6 +296,9 @@ func Sign(t *testing.T, im *Impl) {
 				map[string]interface{}{"seed": verifmc.FullHex(seeds[c.key]), "mprime": verifmc.FullHex(c.mp), "rnd": verifmc.FullHex(c.rnd[:])})
 			return
 		}
+		if c.craft {
+			return // t0 does not belong to the public key: nothing to verify
+		}
 		// honest signatures verify (implementation and reference)
 		if !k.Verify(c.mp, got) {
 			r.Violation(key("Verify", "honest-signature-refused"), c.id, fmt.Sprintf("%s Verify refuses the signature the reference and the implementation both produce (key #%d, |M'|=%d)", im.Name, c.key, len(c.mp)),
@@ -228,9 +317,14 @@ func Sign(t *testing.T, im *Impl) {
 	r.RequireCounter("rej_z", 20)
 	r.RequireCounter("rej_r0", 20)
 	r.RequireCounter("signatures_with_restart", 50)
+	r.RequireCounter("crafted_cases", int64(nCraft/2))
+	r.RequireCounter("crafted_rej_hint_weight", 10)
+	if p.Tau<<(ref.D-1) > p.Gamma2 {
+		r.RequireCounter("crafted_rej_ct0", 4)
+	}
 	if len(edgeCounters[p.Name]) > 0 {
 		r.RequireCounter("z_bound_only_cases", 1)
 		r.RequireCounter("r0_bound_only_cases", 1)
 	}
-	r.NotExhaustive("scheme level: seeds, messages and rnd are a declared finite alphabet (the full input space is 2^256 x messages); ct0-norm rejection is not reachable with honest keys for tau*2^12 < gamma2")
+	r.NotExhaustive("scheme level: seeds, messages and rnd are a declared finite alphabet (the full input space is 2^256 x messages); the c*t0 norm rejection cannot fire for gamma2 = (q-1)/32 (tau*2^12 < gamma2 for every encodable t0) and is driven by a crafted t0 for gamma2 = (q-1)/88")
 }
